@@ -74,6 +74,8 @@ def run(ctx):
     # file rotation mid-stream; files are named with 1 s resolution, so the shortened interval stays above one second
     for (fs, nf, rot, pause) in ([(100, 110, 1100, 20000)] if tier == "quick" else [(100, 110, 1100, 20000), (5000, 60, 1300, 50000), (10, 400, 1050, 8000)]):
         scripts.append(dict(framesize=fs, nframes=nf, cut_last=(nf == 60), chunks=[], mode="free", rotate_ms=rot, pause_us=pause))
+    # a frame size beyond 16 bits (the frame-size field and the buffers must not truncate), always present
+    scripts.append(dict(framesize=650000, nframes=3, cut_last=False, chunks=[65536, 1], mode="free", gomaxprocs=4, stall_ms=0, stall_every=1))
     nfree = 12 if tier == "quick" else 150
     for i in range(nfree):
         scripts.append(dict(framesize=rng.choice([10, 11, 1000, 38400, 39040, 650000 if i % 6 == 0 else 4096]),
